@@ -197,3 +197,125 @@ func (i *interpreter) regexMatchTerm(re *regexp.Regexp, bs []value) *Term {
 	}
 	return matched
 }
+
+// ---- submatches on symbolic text: a backtracking matcher with decisions ----
+
+type reBT struct {
+	i       *interpreter
+	prog    *syntax.Prog
+	bs      []value
+	n       int
+	caps    []int
+	visited map[[2]int]bool
+	steps   int
+}
+
+func (b *reBT) emptyTerm(flags syntax.EmptyOp, pos int) *Term {
+	i, tt, bs, n := b.i, b.i.tt, b.bs, b.n
+	c := tt.True
+	if flags&syntax.EmptyBeginText != 0 && pos != 0 {
+		return tt.False
+	}
+	if flags&syntax.EmptyEndText != 0 && pos != n {
+		return tt.False
+	}
+	if flags&syntax.EmptyBeginLine != 0 && pos != 0 {
+		c = tt.And(c, i.byteClassTerm(bs[pos-1], func(x byte) bool { return x == '\n' }))
+	}
+	if flags&syntax.EmptyEndLine != 0 && pos != n {
+		c = tt.And(c, i.byteClassTerm(bs[pos], func(x byte) bool { return x == '\n' }))
+	}
+	if flags&(syntax.EmptyWordBoundary|syntax.EmptyNoWordBoundary) != 0 {
+		prev, cur := tt.False, tt.False
+		if pos > 0 {
+			prev = i.byteClassTerm(bs[pos-1], isWordByte)
+		}
+		if pos < n {
+			cur = i.byteClassTerm(bs[pos], isWordByte)
+		}
+		boundary := tt.Not(tt.Eq(prev, cur))
+		if flags&syntax.EmptyWordBoundary != 0 {
+			c = tt.And(c, boundary)
+		}
+		if flags&syntax.EmptyNoWordBoundary != 0 {
+			c = tt.And(c, tt.Not(boundary))
+		}
+	}
+	return c
+}
+
+func (b *reBT) step(pc uint32, pos int) bool {
+	b.steps++
+	if b.steps > 200000 {
+		panic(budgetExceeded{"regular-expression backtracking budget"})
+	}
+	in := &b.prog.Inst[pc]
+	switch in.Op {
+	case syntax.InstFail:
+		return false
+	case syntax.InstAlt, syntax.InstAltMatch:
+		return b.step(in.Out, pos) || b.step(in.Arg, pos)
+	case syntax.InstNop:
+		return b.step(in.Out, pos)
+	case syntax.InstCapture:
+		if int(in.Arg) < len(b.caps) {
+			old := b.caps[in.Arg]
+			b.caps[in.Arg] = pos
+			if b.step(in.Out, pos) {
+				return true
+			}
+			b.caps[in.Arg] = old
+			return false
+		}
+		return b.step(in.Out, pos)
+	case syntax.InstEmptyWidth:
+		if !b.i.decide(b.emptyTerm(syntax.EmptyOp(in.Arg), pos)) {
+			return false
+		}
+		return b.step(in.Out, pos)
+	case syntax.InstMatch:
+		b.caps[1] = pos
+		return true
+	}
+	// rune instructions
+	if pos >= b.n {
+		return false
+	}
+	key := [2]int{int(pc), pos}
+	if b.visited[key] {
+		return false
+	}
+	b.visited[key] = true
+	if !b.i.decide(b.i.runeInstTerm(in, b.bs[pos])) {
+		return false
+	}
+	return b.step(in.Out, pos+1)
+}
+
+// regexFindSubmatchIndex: leftmost-first match at or after start; nil if none.
+func (i *interpreter) regexFindSubmatchIndex(re *regexp.Regexp, bs []value, start int) []int {
+	prog := i.compiledProg(re)
+	for _, x := range bs {
+		if s, ok := x.(*Sym); ok {
+			i.noteAssume("regular expressions on symbolic text: subject bytes < 0x80 (one byte per rune)")
+			i.assumeTerm(i.tt.Bin(OpUlt, s.t, i.tt.Const(8, 0x80)), "regexp ASCII subject")
+		} else if x.(uint8) >= 0x80 {
+			panic(unsupported{"regexp on partly symbolic non-ASCII text"})
+		}
+	}
+	ncap := 2 * (re.NumSubexp() + 1)
+	for p := start; p <= len(bs); p++ {
+		b := &reBT{i: i, prog: prog, bs: bs, n: len(bs), caps: make([]int, ncap), visited: map[[2]int]bool{}}
+		for k := range b.caps {
+			b.caps[k] = -1
+		}
+		b.caps[0] = p
+		if b.step(uint32(prog.Start), p) {
+			// the end of the whole match is where InstMatch was reached: recompute by tracking
+			return b.result()
+		}
+	}
+	return nil
+}
+
+func (b *reBT) result() []int { return b.caps }
